@@ -24,7 +24,7 @@ func init() {
 		Category: "model_checking",
 		Rule: "first life: a stream in {70 KB text, 300 B, a stream ending in a corrupt-input error, a truncated stream, streams cut inside a dynamic header / inside a stored block's length field / inside its payload, a 70 KB stored stream, every stream of the C03 fault catalogue read to its error} x read history in {nothing read, 1 byte, 10 bytes, all but the last byte, to the end/error, exactly 65535 / 65536 bytes (output window full)} x Read size {1 MiB, 7}; then Reset(second source [, dictionary]); " +
 			"second life: every stream of the short corpus, malformed streams whose back-references reach 1, 2, 100 and 32768 bytes before their own start, containers of the same kind, and for zlib every combination {first stream with/without dictionary} x {second with/without}; flate, gzip (also member stepping), zlib; second source plain, a 64-byte bufio, one byte per call, or one byte per call through a 16-byte bufio; " +
-			"oracle: bytes and kind of error of the second life identical to a fresh Reader on the same input; non-trivial = the first life decoded at least one byte",
+			"first source plain, or a 64-byte or default-size *bufio.Reader owned by the caller; oracle: bytes and kind of error of the second life identical to a fresh Reader on the same input, and the first source untouched after Reset (no further Read call; the caller still reads from it exactly what was left); non-trivial = the first life decoded at least one byte",
 		Assumptions: []string{"a freshly constructed Reader is the reference model"},
 		Quick:       TierSpec{MaxDev: -1, Shards: 4, ShardDepth: 3, BudgetS: 150},
 		Thorough:    TierSpec{MaxDev: -1, Shards: 8, ShardDepth: 3, BudgetS: 1200},
@@ -68,6 +68,65 @@ func backrefStreams() []namedStream {
 	return out
 }
 
+// c13first is the source of the first life: a plain reader or a *bufio.Reader that belongs to the caller. It is
+// snapshotted right before Reset; nothing the Reader does afterwards may touch it: no further call, and what the
+// caller then reads from it is exactly what was left (buffered bytes, then the rest of the underlying data).
+type c13first struct {
+	src      *env.Source
+	br       *bufio.Reader
+	calls    int
+	expected []byte
+}
+
+func newC13first(data []byte, mode int) *c13first {
+	f := &c13first{src: env.NewSource(data)}
+	switch mode {
+	case 1:
+		f.br = bufio.NewReaderSize(f.src, 64)
+	case 2:
+		f.br = bufio.NewReader(f.src)
+	}
+	return f
+}
+
+func (f *c13first) reader() io.Reader {
+	if f.br != nil {
+		return f.br
+	}
+	return f.src
+}
+
+func (f *c13first) snapshot() {
+	f.calls = f.src.Calls
+	f.expected = nil
+	if f.br != nil {
+		p, _ := f.br.Peek(f.br.Buffered())
+		f.expected = append(f.expected, p...)
+	}
+	f.expected = append(f.expected, f.src.Data[f.src.Off:]...)
+}
+
+// verify returns a description of what happened to the first source after Reset, or "".
+func (f *c13first) verify() string {
+	if f.src.Calls != f.calls {
+		return fmt.Sprintf("%d more Read call(s) on the earlier source after Reset", f.src.Calls-f.calls)
+	}
+	rest, _ := io.ReadAll(f.reader())
+	if !bytes.Equal(rest, f.expected) {
+		return fmt.Sprintf("the caller's reader of the earlier source now delivers %d bytes %q..., it held %d bytes %q... at Reset", len(rest), head(rest, 24), len(f.expected), head(f.expected, 24))
+	}
+	return ""
+}
+
+func head(b []byte, n int) []byte {
+	if len(b) > n {
+		return b[:n]
+	}
+	return b
+}
+
+var c13firstNames = []string{"plain", "caller-bufio64", "caller-bufio4096"}
+
 func c13Harness(cfg *Cfg) func(x *mc.Exec) {
 	g := newStreamGen(cfg)
 	text70 := pieces.Text(70000, cfg.Seed+9)
@@ -80,7 +139,8 @@ func c13Harness(cfg *Cfg) func(x *mc.Exec) {
 		// first lives that stop with every kind of carry-over state set: inside a dynamic header (header staging),
 		// inside a stored block (remaining length), inside the stored length field
 		{"cut-inside-dynamic-header", s70[:10], nil}, {"cut-inside-dynamic-header-40", s70[:40], nil}, {"stored-70K", stored70, nil},
-		{"cut-inside-stored-length", stored70[:3], nil}, {"cut-inside-stored-payload", stored70[:1000], nil}}
+		{"cut-inside-stored-length", stored70[:3], nil}, {"cut-inside-stored-payload", stored70[:1000], nil},
+		{"300B+trailing-bytes", append(append([]byte{}, s300...), "TRAILING BYTES THAT BELONG TO THE CALLER OF THE FIRST LIFE"...), nil}}
 	// first lives that end in every kind of rejected header/symbol (the fault catalogue of C03, first-block and
 	// after-a-fixed-block positions): whatever a rejected block left half-built must not survive Reset
 	for _, f := range singleFaults() {
@@ -177,6 +237,15 @@ func c13Harness(cfg *Cfg) func(x *mc.Exec) {
 		hist := x.Choose(len(histories), "history")
 		pol := pols[x.Choose(len(pols), "read-policy")]
 		viaBufio := x.Choose(4, "second-source")
+		fmode := x.Choose(len(c13firstNames), "first-source")
+		var first *c13first
+		checkFirst := func(kind, desc string) bool {
+			if msg := first.verify(); msg != "" {
+				x.Fail(fmt.Sprintf("C13 earlier-source-touched %s first-source=%s", kind, c13firstNames[fmode]), "%s first-source=%s: %s", desc, c13firstNames[fmode], msg)
+				return false
+			}
+			return true
+		}
 		if hist != 0 {
 			x.NonTrivial()
 		}
@@ -189,8 +258,10 @@ func c13Harness(cfg *Cfg) func(x *mc.Exec) {
 			}
 			var r io.Reader
 			if pi := Guard(func() {
-				r = fflate.NewReader(env.NewSource(f1.stream))
+				first = newC13first(f1.stream, fmode)
+				r = fflate.NewReader(first.reader())
 				firstRead(r, hist, 70000)
+				first.snapshot()
 				r.(fflate.Resetter).Reset(mkSrc(s2.stream, viaBufio), nil)
 			}); pi != nil {
 				x.Fail("C13 panic "+pi.Site, "flate first=%s history=%s: %s", f1.name, histories[hist], pi)
@@ -199,7 +270,11 @@ func c13Harness(cfg *Cfg) func(x *mc.Exec) {
 			got := drainReader(r, pol)
 			want := drainReader(fflate.NewReader(mkSrc(s2.stream, viaBufio)), pol)
 			x.Note(got.FP)
-			c13compare(x, "flate", fmt.Sprintf("flate first=%s history=%s second=%s policy=%s bufio=%d", f1.name, histories[hist], s2.name, pol.Name, viaBufio), histories[hist], got, want)
+			desc := fmt.Sprintf("flate first=%s history=%s second=%s policy=%s bufio=%d", f1.name, histories[hist], s2.name, pol.Name, viaBufio)
+			if !checkFirst("flate", desc) {
+				return
+			}
+			c13compare(x, "flate", desc, histories[hist], got, want)
 		case 1: // gzip
 			c1 := gz[x.Choose(4, "first")]
 			if viaBufio >= 2 && len(c1.bytes) > 2000 {
@@ -210,11 +285,13 @@ func c13Harness(cfg *Cfg) func(x *mc.Exec) {
 			var rerr error
 			if pi := Guard(func() {
 				var err error
-				zr, err = fgzip.NewReader(env.NewSource(c1.bytes))
+				first = newC13first(c1.bytes, fmode)
+				zr, err = fgzip.NewReader(first.reader())
 				if err != nil {
 					panic(mc.HarnessError{Msg: "corpus container rejected: " + err.Error()})
 				}
 				firstRead(zr, hist, len(c1.payload))
+				first.snapshot()
 				rerr = zr.Reset(mkSrc(c2.bytes, viaBufio))
 			}); pi != nil {
 				x.Fail("C13 panic "+pi.Site, "gzip first=%s history=%s: %s", c1.name, histories[hist], pi)
@@ -222,6 +299,9 @@ func c13Harness(cfg *Cfg) func(x *mc.Exec) {
 			}
 			fr, ferr := fgzip.NewReader(mkSrc(c2.bytes, viaBufio))
 			desc := fmt.Sprintf("gzip first=%s history=%s second=%s policy=%s bufio=%d", c1.name, histories[hist], c2.name, pol.Name, viaBufio)
+			if rerr != nil && !checkFirst("gzip", desc) {
+				return
+			}
 			if fmt.Sprint(rerr) != fmt.Sprint(ferr) {
 				x.Fail("C13 reset-error-differs gzip history="+histories[hist], "%s: Reset returned %v, NewReader returned %v", desc, rerr, ferr)
 				return
@@ -237,6 +317,9 @@ func c13Harness(cfg *Cfg) func(x *mc.Exec) {
 			got := drainReader(zr, pol)
 			want := drainReader(fr, pol)
 			x.Note(got.FP)
+			if !checkFirst("gzip", desc) {
+				return
+			}
 			c13compare(x, "gzip", desc, histories[hist], got, want)
 		case 2: // zlib, with dictionaries
 			c1 := zl[x.Choose(len(zl), "first")]
@@ -255,15 +338,18 @@ func c13Harness(cfg *Cfg) func(x *mc.Exec) {
 			var rerr error
 			if pi := Guard(func() {
 				var err error
-				zr, err = fzlib.NewReaderDict(env.NewSource(c1.bytes), c1.kind.Dict)
+				first = newC13first(c1.bytes, fmode)
+				zr, err = fzlib.NewReaderDict(first.reader(), c1.kind.Dict)
 				if err != nil {
 					// first life may legitimately fail to open (missing dictionary): still a used Reader
-					zr, err = fzlib.NewReader(env.NewSource(zl[0].bytes))
+					first = newC13first(zl[0].bytes, fmode)
+					zr, err = fzlib.NewReader(first.reader())
 					if err != nil {
 						panic(mc.HarnessError{Msg: "corpus container rejected: " + err.Error()})
 					}
 				}
 				firstRead(zr, hist, len(c1.payload))
+				first.snapshot()
 				rerr = zr.(fzlib.Resetter).Reset(mkSrc(c2.bytes, viaBufio), d2)
 			}); pi != nil {
 				x.Fail("C13 panic "+pi.Site, "zlib first=%s history=%s: %s", c1.name, histories[hist], pi)
@@ -283,6 +369,9 @@ func c13Harness(cfg *Cfg) func(x *mc.Exec) {
 			got := drainReader(zr, pol)
 			want := drainReader(fr, pol)
 			x.Note(got.FP)
+			if !checkFirst("zlib", desc) {
+				return
+			}
 			c13compare(x, "zlib "+dcls, desc, histories[hist], got, want)
 		}
 	}
